@@ -2626,9 +2626,18 @@ package goatlang
 //@   property C03 C20
 //@   requires l != nil && posOK(l, p)
 //@   nopanic
+//@ -- nz(a, lo, hi): number of non-zero positions of backing array a in [lo, hi) (recursive
+//@ -- definition, stated as two axioms)
+//@ ghost nz(a int, lo int, hi int) int
+//@ axiom NZ
+//@   decl (declare-fun ghost$nz ((Array Int (_ BitVec 64)) Int Int) Int)
+//@   smt (forall ((a (Array Int (_ BitVec 64))) (lo Int) (hi Int)) (! (=> (>= lo hi) (= (ghost$nz a lo hi) 0)) :pattern ((ghost$nz a lo hi))))
+//@   smt (forall ((a (Array Int (_ BitVec 64))) (lo Int) (lo2 Int) (hi Int)) (! (=> (and (= lo2 (+ lo 1)) (< lo hi)) (= (ghost$nz a lo hi) (+ (ghost$nz a lo2 hi) (ite (= (select a lo) #x0000000000000000) 0 1)))) :pattern ((ghost$nz a lo hi) (ghost$nz a lo2 hi))))
 //@ func (*VM).btErr
 //@   property C03 C20
+//@   axioms NZ
 //@   requires v != nil && v.globals != nil
+//@   callsite#lines @C20 strings.Join: len(arg_0) == 1 + nz(elemsAt(pos, arr(v.backtrace)), off(v.backtrace), off(v.backtrace) + len(v.backtrace))
 //@   assumes#A-POS forall j int :: 0 <= j && j < len(v.frame.Codes) ==> posOK(v.globals, v.frame.Codes[j].Pos)
 //@   assumes#A-BT forall j int :: 0 <= j && j < len(v.backtrace) ==> posOK(v.globals, v.backtrace[j])
 //@   allocates elems(string)
@@ -2636,6 +2645,7 @@ package goatlang
 //@ func (*VM).btErr loop 0
 //@   invariant n >= -1 && n < len(bt) && bt == v.backtrace && v.globals != nil && (cap(lines) == 0 || isfresh(arr(lines)))
 //@   invariant forall j int :: 0 <= j && j < len(bt) ==> posOK(v.globals, bt[j])
+//@   invariant#lines @C20 len(lines) == 1 + nz(elemsAt(pos, arr(bt)), off(bt) + n + 1, off(bt) + len(bt))
 //@
 //@ func (*VM).run
 //@   property C03
